@@ -1,0 +1,27 @@
+//go:build verif
+
+package base
+
+import (
+	"fmt"
+
+	"seata.apache.org/seata-go/pkg/datasource/sql/undo"
+)
+
+// VerifDecode runs a stored (context, rollback_info) pair through the same
+// private chain Undo uses: decodeUndoLogCtx -> getRollbackInfo -> deserializeBranchUndoLog.
+func VerifDecode(context, rollbackInfo []byte) (*undo.BranchUndoLog, error) {
+	m := NewBaseUndoLogManager()
+	var logCtx map[string]string
+	if context != nil && string(context) != "" {
+		logCtx = m.decodeUndoLogCtx(context)
+	}
+	if logCtx == nil {
+		return nil, fmt.Errorf("undo log context not exist")
+	}
+	info, err := m.getRollbackInfo(rollbackInfo, logCtx)
+	if err != nil {
+		return nil, err
+	}
+	return m.deserializeBranchUndoLog(info, logCtx)
+}
